@@ -203,6 +203,8 @@ def post_ctx(case, r, res, obs):
 
 
 def run(rep, tier):
+    from .. import scale
+    scale.run(rep, PROP, tier)          # size ladders (seedverif/scale.py): the entries that concern this property
     descs = []
     for op in OPS:
         for lk in KINDS:
